@@ -1,6 +1,8 @@
 """C06 concretiser: reply shapes (from MC_ErrorCheck) -> concrete replies fed to check_for_errors, a ServerProxy over an
 in-process loopback transport, and MultiCall result access."""
 import json
+import signal
+import threading
 import math
 import random
 import sys
@@ -80,6 +82,21 @@ def concretise(a, rnd):
     return reply, meta
 
 
+def used_before(fn):
+    """an earlier, equal use whose outcome - the returned value, the data of the raised error - was then modified in
+    place by the caller (harness/perturb.py)"""
+    from harness.perturb import scribble
+    try:
+        scribble(fn())
+    except BaseException as e:  # noqa
+        scribble(list(e.args))
+        if isinstance(e, jsonrpc.AppError):
+            try:
+                scribble(e.data())
+            except BaseException:  # noqa
+                pass
+
+
 def outcome(fn):
     try:
         v = fn()
@@ -125,16 +142,37 @@ def run_case(c, rnd):
         rec["cfe"] = res if res is not None else outcome(fa)
     else:
         rec["cfe"] = outcome(lambda: jsonrpc.check_for_errors(json.loads(text)))
-    rec["proxy"] = outcome(lambda: jsonrpc.ServerProxy("http://loop/", transport=Loop(text), config=cfg).ping(1))
+    # (half of the cases: the proxy has been used before, for an equal exchange whose outcome the caller then modified)
+    reuse = rnd.random() < 0.5
+    rec["reused"] = reuse
+    px = jsonrpc.ServerProxy("http://loop/", transport=Loop(text), config=cfg)
+    if reuse:
+        used_before(lambda: px.ping(1))
+    rec["proxy"] = outcome(lambda: px.ping(1))
     # a notification call that the peer answers all the same: an error in that reply is not swallowed
-    rec["notify"] = outcome(lambda: jsonrpc.ServerProxy("http://loop/", transport=Loop(text), config=cfg)._notify.ping(1))
+    pn = jsonrpc.ServerProxy("http://loop/", transport=Loop(text), config=cfg)
+    if reuse:
+        used_before(lambda: pn._notify.ping(1))
+    rec["notify"] = outcome(lambda: pn._notify.ping(1))
 
     def mc(access):
-        p = jsonrpc.ServerProxy("http://loop/", transport=Loop("[%s, %s]" % (text, json.dumps(ok))), config=cfg)
+        tr = Loop("[%s, %s]" % (text, json.dumps(ok)))
+        p = jsonrpc.ServerProxy("http://loop/", transport=tr, config=cfg)
         m = jsonrpc.MultiCall(p)
+        if reuse:
+            m.ping(1)
+            m.pong()
+            used_before(lambda: [x for x in m()])
         m.ping(1)
         m.pong()
         res = m()
+        if reuse:
+            # the same MultiCall object is filled and executed again before the results above are read: they stay
+            # those of their own batch
+            tr.text = "[%s, %s]" % (json.dumps({"jsonrpc": "2.0", "id": 7, "result": "later"}), json.dumps(ok))
+            m.ping(2)
+            m.pong()
+            m()
         return access(res)
     rec["mcindex"] = outcome(lambda: mc(lambda res: res[0]))
     rec["mciter"] = outcome(lambda: mc(lambda res: next(iter(res))))
@@ -169,12 +207,32 @@ def client_histories(rnd, n):
             item = rnd.choice(["J601", "J42", "JRAW"])
             ver = rnd.choice([1.0, 2.0])
             p = jsonrpc.ServerProxy(peer.url(), version=ver)
-            with peer.lock:
-                peer.script[:] = [fault]
-            try:
-                p.echo("tok-%d" % k)
-            except BaseException:  # noqa
-                pass
+            interrupted = fault == "H" and (k // len(faults)) % 2 == 1 and threading.current_thread() is threading.main_thread()
+            if interrupted:
+                # the first call is given up by its caller while it waits for the answer: a signal handler raises
+                # KeyboardInterrupt (a BaseException) inside the exchange, the application catches it and goes on
+                fault = "KI"
+                with peer.lock:
+                    peer.script[:] = ["SLOW"]
+
+                def on_alarm(signum, frame):
+                    raise KeyboardInterrupt()
+                prev = signal.signal(signal.SIGALRM, on_alarm)
+                signal.setitimer(signal.ITIMER_REAL, 0.15)
+                try:
+                    p.echo("tok-%d" % k)
+                except BaseException:  # noqa
+                    pass
+                finally:
+                    signal.setitimer(signal.ITIMER_REAL, 0)
+                    signal.signal(signal.SIGALRM, prev)
+            else:
+                with peer.lock:
+                    peer.script[:] = [fault]
+                try:
+                    p.echo("tok-%d" % k)
+                except BaseException:  # noqa
+                    pass
             with peer.lock:
                 peer.script[:] = [item]
             second = outcome(lambda: p.echo("tok2-%d" % k))
